@@ -4,11 +4,14 @@ import (
 	"context"
 	"errors"
 	"fmt"
+	"io"
 	"net/http"
 	"net/http/httptest"
+	neturl "net/url"
 	"sort"
 	"strings"
 	"sync"
+	"sync/atomic"
 	"testing"
 	"time"
 
@@ -19,16 +22,18 @@ import (
 // C19: client-side customisation applies to every outbound HTTP request.
 
 type C19Case struct {
-	Kind      int      `json:"kind"`             // 0 Streamable client, 1 legacy SSE client
-	Headers   int      `json:"headers"`          // number of WithHTTPHeaders options (0-2), each with its own key
-	Before    bool     `json:"before"`           // WithHTTPBeforeRequest configured
-	Handler   bool     `json:"handler"`          // WithHTTPReqHandler configured (otherwise the default handler over real loopback TCP)
-	Path      string   `json:"path"`             // WithClientPath ("" = none)
-	Init503   bool     `json:"init503"`          // the first handshake is answered 503, the second succeeds
-	Ops       []string `json:"ops"`              // call notify roots unknown terminate
-	BeforeErr string   `json:"beforeerr"`        // request kind at which the before-request function fails once ("" = never)
-	Query     string   `json:"query,omitempty"`  // query string of the configured URL ("" = none), e.g. "?api_key=k"
-	Del503    bool     `json:"del503,omitempty"` // the first session DELETE is answered 503 (the session stays alive on the server)
+	Kind      int      `json:"kind"`                // 0 Streamable client, 1 legacy SSE client
+	Headers   int      `json:"headers"`             // number of WithHTTPHeaders options (0-2), each with its own key
+	Before    bool     `json:"before"`              // WithHTTPBeforeRequest configured
+	Handler   bool     `json:"handler"`             // WithHTTPReqHandler configured (otherwise the default handler over real loopback TCP)
+	Path      string   `json:"path"`                // WithClientPath ("" = none)
+	Init503   bool     `json:"init503"`             // the first handshake is answered 503, the second succeeds
+	Ops       []string `json:"ops"`                 // call notify roots unknown terminate
+	BeforeErr string   `json:"beforeerr"`           // request kind at which the before-request function fails once ("" = never)
+	Query     string   `json:"query,omitempty"`     // query string of the configured URL ("" = none), e.g. "?api_key=k"
+	Del503    bool     `json:"del503,omitempty"`    // the first session DELETE is answered 503 (the session stays alive on the server)
+	Get503    bool     `json:"get503,omitempty"`    // legacy SSE: the first connect GET is answered 503; the handshake is then repeated under another context
+	ConnFault string   `json:"connfault,omitempty"` // with a configured request handler: the handler fails once with a connection error (EOF) at this request kind
 }
 
 var c19Ops = []string{"call", "call", "notify", "roots", "unknown", "terminate", "list"}
@@ -46,8 +51,15 @@ func genC19(t *rapid.T) C19Case {
 	}
 	c.Query = rapid.SampledFrom([]string{"", "", "?api_key=k1", "?a=1&b=%2Fx"}).Draw(t, "query")
 	c.Del503 = c.Kind == 0 && rapid.IntRange(0, 2).Draw(t, "del503") == 0
-	if c.Init503 && (c.BeforeErr == "POST:initialize" || c.BeforeErr == "GET") {
+	c.Get503 = c.Kind == 1 && !c.Init503 && rapid.IntRange(0, 3).Draw(t, "get503") == 0
+	if (c.Init503 || c.Get503) && (c.BeforeErr == "POST:initialize" || c.BeforeErr == "GET") {
 		c.BeforeErr = "" // the refusal would land on the 503 handshake instead of the scripted place
+	}
+	if c.Handler && rapid.IntRange(0, 3).Draw(t, "connfault") == 0 {
+		c.ConnFault = rapid.SampledFrom([]string{"POST:notifications/roots/list_changed", "POST:notifications/roots/list_changed", "POST:tools/call", "POST:tools/list"}).Draw(t, "connfaultat")
+		if c.ConnFault == c.BeforeErr {
+			c.ConnFault = ""
+		}
 	}
 	return c
 }
@@ -113,6 +125,7 @@ func execC19(c C19Case) *Failure {
 	var smu sync.Mutex
 	var serverLog []*SeenReq
 	delRefused := false
+	getRefused := false
 	rec := http.HandlerFunc(func(w http.ResponseWriter, r *http.Request) {
 		var body []byte
 		if r.Body != nil {
@@ -123,6 +136,16 @@ func execC19(c C19Case) *Failure {
 		smu.Lock()
 		serverLog = append(serverLog, sr)
 		smu.Unlock()
+		if r.Method == http.MethodGet && c.Get503 {
+			smu.Lock()
+			first := !getRefused
+			getRefused = true
+			smu.Unlock()
+			if first {
+				http.Error(w, "scripted status", http.StatusServiceUnavailable)
+				return
+			}
+		}
 		if r.Method == http.MethodDelete && c.Del503 {
 			smu.Lock()
 			first := !delRefused
@@ -154,11 +177,18 @@ func execC19(c C19Case) *Failure {
 		}
 	})
 	var opts []mcp.ClientOption
+	var connFaults atomic.Int32
 	opts = append(opts, mcp.WithClientLogger(nopLogger{}))
 	base := "http://c19.invalid"
 	var br *Bridge
 	if c.Handler {
 		br = &Bridge{H: rec, CtxKey: c19Key{}}
+		br.Fault = func(r *SeenReq) error {
+			if c.ConnFault != "" && reqKind(r.Method, r.RPC, r.RPCKind) == c.ConnFault && connFaults.CompareAndSwap(0, 1) {
+				return &neturl.Error{Op: "Post", URL: "http://c19.invalid/mcp", Err: io.EOF}
+			}
+			return nil
+		}
 		opts = append(opts, mcp.WithHTTPReqHandler(br))
 	} else {
 		ts := httptest.NewServer(rec)
@@ -226,6 +256,7 @@ func execC19(c C19Case) *Failure {
 	// expected multiset of request kinds (as the operations imply), with the op tag whose context they must carry
 	type want struct{ kind, tag string }
 	var wants []want
+	connFaultTag := "" // the operation whose request the handler lost (it passed the before-request function, the server never saw it)
 	sessionIssued := false
 	terminated := false
 	where := func(op string) string {
@@ -245,8 +276,26 @@ func execC19(c C19Case) *Failure {
 			}
 		}
 		bmu.Unlock()
+		connWillFail := ""
+		if c.ConnFault != "" && connFaults.Load() == 0 && willFail == "" {
+			for _, k := range kinds {
+				if k == c.ConnFault {
+					connWillFail = k
+				}
+			}
+		}
 		before := serverCount()
 		err := f(ctx)
+		if connWillFail != "" && connFaults.Load() == 1 {
+			// the request handler reported a lost connection for this request: it reached no server. Whether the operation
+			// fails is not this property's business; what was sent is judged from the three logs at the end.
+			connFaultTag = tag
+			if err == nil {
+				wants = append(wants, want{connWillFail, tag})
+				connFaultTag = ""
+			}
+			return nil
+		}
 		if willFail != "" && !(willFail == "GET" && c.Kind == 0) && willFail != "POST:response" {
 			// synchronous request kinds: the operation itself must fail with the function's error and the failing request must not be sent
 			if err == nil || !strings.Contains(err.Error(), errBefore.Error()) {
@@ -298,6 +347,15 @@ func execC19(c C19Case) *Failure {
 		if c.Kind == 1 {
 			initKinds = initKinds[1:] // the SSE connection is already up
 		}
+	}
+	if c.Get503 {
+		ctx, cancel := opCtx("init0")
+		_, err := cl.Initialize(ctx, &mcp.InitializeRequest{})
+		cancel()
+		if err == nil {
+			return Failf("C19/handshake", "%s: the handshake succeeded although the event stream was refused with 503", where("init0"))
+		}
+		wants = append(wants, want{"GET", "init0"})
 	}
 	f := doInit("init")
 	aborted := f == errSkipRest
@@ -472,14 +530,18 @@ func execC19(c C19Case) *Failure {
 	if tally(srvKinds) != tally(wantKinds) {
 		return Failf("C19/request-multiset", "%s: the server received {%s}, the operations imply {%s}", where("end"), tally(srvKinds), tally(wantKinds))
 	}
-	if c.Handler && int(br.Forwarded.Load()) != len(srv) {
-		return Failf("C19/bypasses-request-handler", "%s: the configured request handler forwarded %d requests, the server received %d {%s}", where("end"), br.Forwarded.Load(), len(srv), tally(srvKinds))
+	nConnFaults := int(connFaults.Load())
+	if c.Handler && int(br.Forwarded.Load()) != len(srv)+nConnFaults {
+		return Failf("C19/bypasses-request-handler", "%s: the configured request handler was handed %d requests (%d of them lost with a connection error), the server received %d {%s}", where("end"), br.Forwarded.Load(), nConnFaults, len(srv), tally(srvKinds))
 	}
 	if c.Before {
 		// the function saw every request that was sent, exactly once, plus the one it refused
 		exp := append([]string(nil), srvKinds...)
 		if failedOnce && c.BeforeErr != "" {
 			exp = append(exp, c.BeforeErr)
+		}
+		if nConnFaults > 0 {
+			exp = append(exp, c.ConnFault) // it passed the function once before the handler lost it
 		}
 		sort.Strings(exp)
 		sort.Strings(beforeKinds)
@@ -505,6 +567,14 @@ func execC19(c C19Case) *Failure {
 			gt := append([]string(nil), gotTag[k]...)
 			if failedOnce && c.BeforeErr == k && len(gt) > len(wt) {
 				gt = gt[:len(wt)]
+			}
+			if nConnFaults > 0 && k == c.ConnFault && connFaultTag != "" {
+				for i, g := range gt {
+					if g == connFaultTag {
+						gt = append(append([]string(nil), gt[:i]...), gt[i+1:]...)
+						break
+					}
+				}
 			}
 			if k == "POST:response" {
 				continue // answers to server requests run in the background: the handshake's values are asserted for the stream only
